@@ -1,11 +1,15 @@
 import BoxoModel.C32.Model
+import BoxoModel.C32.Base32
 /-! Line-protocol driver for C32 (see /verif/docs/HOWTO.md).
 ops (strings in hex, `-` = empty):
-  gw <hostname> <path,path,..|-> <useSubdomains> <noDNSLink> <inlineDNSLink>   add a PublicGateway
+  gw <hostname> <path,path,..|-> <useSubdomains> <noDNSLink> <inlineDNSLink> <isIP>   add a PublicGateway
+                                          (isIP = net.ParseIP(stripPort(hostname)) != nil, a parameter)
   cfgnodns <0|1>                                                                Config.NoDNSLink
   dns <name>                                                                    DNSLink record (backend only)
   inline <name> | uninline <label>                                              InlineDNSLink / UninlineDNSLink
-  req <host> <x-forwarded-host> <path> <rawquery> <fragment> <https> <table entries…>
+  b32 <codec> <multihash>                 NewCidV1(codec, mh).StringOfBase(Base32), computed by the model (enc32)
+  req <host> <x-forwarded-host> <path> <rawquery> <fragment> <https> <uri> <table entries…>
+      uri = - (no ?uri=) | x (url.Parse fails) | <scheme>:<gopath.Join result>
       d=<s>:<ver>,<codec>,<mh> | d=<s>:x        cid.Decode(s)
       e=<b36>,<codec>,<mh>:<s>                   NewCidV1(codec, mh).StringOfBase(b36 ? Base36 : Base32)
       p=<s>:<cid string> | p=<s>:x               peer.Decode(s) → peer.ToCid(..).String()
@@ -113,6 +117,7 @@ def showURL (u : URL) : String :=
 
 def showOut : Out → String
   | .redirect u => showURL u
+  | .redirectPath p => s!"301p {hex p}"
   | .next p .none => s!"next {hex p} none -"
   | .next p (.gateway h) => s!"next {hex p} gateway {hex h}"
   | .next p (.subdomain h) => s!"next {hex p} subdomain {hex h}"
@@ -120,21 +125,33 @@ def showOut : Out → String
   | .notFound => "404"
   | .badRequest => "400"
 
-def emptyCfg : Config := { exact := [], wildcard := [], noDNSLink := false }
+structure St where
+  raw : List RawGW := []
+  noDNSLink : Bool := false
 
-def step (cfg : Config) (line : String) : Config × String :=
+def St.cfg (st : St) : Config := prepare st.raw st.noDNSLink
+
+def parseUri (s : String) : Option UriParam :=
+  if s == "-" then some .absent
+  else if s == "x" then some .unparsable
+  else match s.splitOn ":" with
+    | [a, b] => do let a ← unhex a; let b ← unhex b; pure (.parsed a b)
+    | _ => none
+
+def step (cfg : St) (line : String) : St × String :=
   match (line.trimAscii.toString.splitOn " ").filter (· ≠ "") with
-  | ["case", n] => (emptyCfg, s!"case {n}")
-  | ["end"] => (emptyCfg, "end")
-  | ["gw", host, paths, us, nd, inl] =>
+  | ["case", n] => ({}, s!"case {n}")
+  | ["end"] => ({}, "end")
+  | ["gw", host, paths, us, nd, inl, isIP] =>
     match unhex host, (if paths == "-" then some [] else (paths.splitOn ",").mapM unhex) with
     | some host, some paths =>
       let gw : GW := { paths := paths, useSubdomains := us == "1", noDNSLink := nd == "1", inlineDNSLink := inl == "1" }
       -- a later entry for the same hostname replaces the earlier one (Go map)
-      match host with
-      | 42 :: 46 :: sfx =>
-        ({ cfg with wildcard := (sfx, gw) :: cfg.wildcard.filter (·.1 != sfx) }, "ok")
-      | _ => ({ cfg with exact := (host, gw) :: cfg.exact.filter (·.1 != host) }, "ok")
+      ({ cfg with raw := { hostname := host, gw := gw, isIP := isIP == "1" } :: cfg.raw.filter (·.hostname != host) }, "ok")
+    | _, _ => (cfg, "bad-op")
+  | ["b32", codec, mh] =>
+    match codec.toNat?, unhex mh with
+    | some codec, some mh => (cfg, hex (enc32 codec mh))
     | _, _ => (cfg, "bad-op")
   | ["cfgnodns", v] => ({ cfg with noDNSLink := v == "1" }, "ok")
   | ["dns", _] => (cfg, "ok")
@@ -146,15 +163,16 @@ def step (cfg : Config) (line : String) : Config × String :=
     match unhex s with
     | some s => (cfg, hex (uninlineDNSLink s))
     | none => (cfg, "bad-op")
-  | "req" :: host :: xfh :: path :: q :: frag :: https :: tabs =>
-    match unhex host, unhex xfh, unhex path, unhex q, unhex frag, parseTables tabs {} with
-    | some host, some xfh, some path, some q, some frag, some t =>
-      let r : Req := { host := host, xfh := xfh, path := path, rawQuery := q, fragment := frag, https := https == "1" }
-      (cfg, showOut (handle true true t.env cfg r))
-    | _, _, _, _, _, _ => (cfg, "bad-op")
+  | "req" :: host :: xfh :: path :: q :: frag :: https :: uri :: tabs =>
+    match unhex host, unhex xfh, unhex path, unhex q, unhex frag, parseUri uri, parseTables tabs {} with
+    | some host, some xfh, some path, some q, some frag, some uri, some t =>
+      let r : Req := { host := host, xfh := xfh, path := path, rawQuery := q, fragment := frag, https := https == "1",
+                       uri := uri }
+      (cfg, showOut (handle true true t.env cfg.cfg r))
+    | _, _, _, _, _, _, _ => (cfg, "bad-op")
   | _ => (cfg, "bad-op")
 
-partial def loop (h : IO.FS.Stream) (out : IO.FS.Stream) (c : Config) : IO Unit := do
+partial def loop (h : IO.FS.Stream) (out : IO.FS.Stream) (c : St) : IO Unit := do
   let line ← h.getLine
   if line.isEmpty then return ()
   let (c', o) := step c line
@@ -163,4 +181,4 @@ partial def loop (h : IO.FS.Stream) (out : IO.FS.Stream) (c : Config) : IO Unit 
 
 def main : IO Unit := do
   let out ← IO.getStdout
-  loop (← IO.getStdin) out emptyCfg
+  loop (← IO.getStdin) out {}
